@@ -1,22 +1,38 @@
 #!/usr/bin/env python3
-"""Apply /verif/seeded/<name>/patch.diff to /repo, run the property's check, undo, record the outcome in meta.json.
-usage: seedrun.py <name> [tier]"""
-import json, os, subprocess, sys, re
-name = sys.argv[1]; tier = sys.argv[2] if len(sys.argv) > 2 else "quick"
+"""Run the property's check against a seeded change and record the outcome in meta.json.
+The patch is applied to a scratch copy of /repo (VERIF_REPO), so that /repo itself is never disturbed while other
+work is building from it; `--in-place` applies it to /repo's working tree instead and undoes it afterwards.
+usage: seedrun.py <name> [tier] [--in-place]"""
+import json, os, subprocess, sys, re, shutil, tempfile
+args = [a for a in sys.argv[1:] if not a.startswith("--")]
+inplace = "--in-place" in sys.argv
+name = args[0]; tier = args[1] if len(args) > 1 else "quick"
 d = os.path.join("/verif/seeded", name)
 meta = json.load(open(os.path.join(d, "meta.json")))
 pid = meta["property"]
-st = subprocess.run(["git", "-C", "/repo", "status", "--porcelain"], stdout=subprocess.PIPE, text=True).stdout.strip()
-if st:
-    sys.exit("/repo not clean: " + st)
-subprocess.check_call(["git", "-C", "/repo", "apply", os.path.join(d, "patch.diff")])
+env = dict(os.environ)
+if inplace:
+    st = subprocess.run(["git", "-C", "/repo", "status", "--porcelain"], stdout=subprocess.PIPE, text=True).stdout.strip()
+    if st:
+        sys.exit("/repo not clean: " + st)
+    subprocess.check_call(["git", "-C", "/repo", "apply", os.path.join(d, "patch.diff")])
+    scratch = None
+else:
+    scratch = tempfile.mkdtemp(prefix="seedrepo-")
+    os.rmdir(scratch)
+    subprocess.check_call(["git", "-C", "/repo", "worktree", "add", "-q", "--detach", scratch, "HEAD"])
+    subprocess.check_call(["git", "-C", scratch, "apply", os.path.join(d, "patch.diff")])
+    env["VERIF_REPO"] = scratch
 try:
-    p = subprocess.run(["./check", pid, "--tier", tier], cwd="/verif", stdout=subprocess.PIPE, stderr=subprocess.STDOUT, text=True)
+    p = subprocess.run(["./check", pid, "--tier", tier], cwd="/verif", stdout=subprocess.PIPE, stderr=subprocess.STDOUT, text=True, env=env)
 finally:
-    subprocess.check_call(["git", "-C", "/repo", "checkout", "--", "."])
-    subprocess.call(["git", "-C", "/repo", "clean", "-fdq"])
+    if inplace:
+        subprocess.check_call(["git", "-C", "/repo", "checkout", "--", "."])
+        subprocess.call(["git", "-C", "/repo", "clean", "-fdq"])
+    else:
+        subprocess.call(["git", "-C", "/repo", "worktree", "remove", "--force", scratch])
 keys = sorted(set(re.findall(r"key=(\S+)", p.stdout)))
-meta.setdefault("check_results", {})[tier] = {"exit": p.returncode, "detected": p.returncode == 1, "keys": keys[:8]}
+meta.setdefault("check_results", {})[tier] = {"exit": p.returncode, "detected": p.returncode == 1, "keys": keys[:8], "head": subprocess.run(["git", "-C", "/repo", "rev-parse", "--short", "HEAD"], stdout=subprocess.PIPE, text=True).stdout.strip()}
 json.dump(meta, open(os.path.join(d, "meta.json"), "w"), indent=1)
 print(name, tier, "exit", p.returncode, keys[:5])
 if p.returncode not in (0, 1):
